@@ -16,10 +16,17 @@ RULE = ('statements generated from a grammar (reads inside arithmetic, every com
         'attributes in one statement; the documented "_, _lock = o.a" form; multi-line variants), each emitted as real source lines in a '
         'generated module (the descriptor inspects its caller\'s source) and run against a FRESH class and instance; after the statement '
         'a second thread must be able to take the lock of every thread-safe attribute without blocking. Leaks are keyed by the syntactic '
-        'class of the statement. distinct_nontrivial = distinct AST shapes (ast.dump of the statement with constants abstracted)')
+        'class of the statement. Every fourth case is concurrent: 2-4 real threads execute 1-3 statements each on ONE object (o.a += c, '
+        'o.a -= c, o.a *= c, o.a = k, x = o.a, o.b += c - forms that release the lock when run alone) under detsched with a yield point '
+        'at every bytecode boundary of miros/thread_safe_attributes.py and of the statements; whenever a thread has finished one of its '
+        'statements it must not own the lock of either attribute, whatever the other threads did meanwhile. '
+        'distinct_nontrivial = distinct AST shapes (ast.dump of the statement with constants abstracted), and distinct context-switch '
+        'sequences of the concurrent runs')
 CASES = {'quick': 400, 'thorough': 20000}
 BUDGET = {'quick': 40, 'thorough': 300}
-REQUIRE = {'statements': 4000, 'probes': 8000, 'plain_reads_ok': 100, 'self_augassign_ok': 100}
+REQUIRE = {'statements': 4000, 'probes': 8000, 'plain_reads_ok': 100, 'self_augassign_ok': 100, 'concurrent_runs': 200,
+           'concurrent_statements_checked': 300, 'concurrent_switch_between_get_and_set': 40}
+ANNOUNCE_CASES = True
 ASSUME = ['one generated statement per function; the probe reads the descriptor\'s lock object (falls back to a timed read when the attribute layout changes)']
 
 TMP = None
@@ -181,7 +188,81 @@ def probe_read(o, name):
   return bool(res)
 
 
+CONC_LABEL = {'+=': 'self-augassign', '-=': 'self-augassign', '*=': 'self-augassign', '=': 'plain-assign', 'read': 'plain-read', 'b+=': 'self-augassign'}
+
+
+def conc_worker(o, plan, out, held):
+  """runs the statements of wl_c27 one by one; after each finished statement the calling thread must not own a lock"""
+  from vt import detsched as ds, wl_c27
+  for k, (op, arg) in enumerate(plan):
+    if op == 'read':
+      wl_c27.rd(o, out)
+    else:
+      wl_c27.OPS[op](o, arg)
+    me = ds.S.me()
+    for name in ('a', 'b'):
+      lock = type(o).__dict__[name]._lock
+      held.append((k, op, name, getattr(lock, 'owner', None) is me, getattr(lock, 'count', 0)))
+
+
+def concurrent_case(ctx, n):
+  import miros.thread_safe_attributes as TSA
+  from vt import detsched as ds, wl_c27
+  rng = ctx.rng('conc', n)
+  plans = []
+  for t in range(rng.randint(2, 4)):
+    plan = []
+    for _ in range(rng.randint(1, 3)):
+      op = rng.choice(['+=', '+=', '-=', '*=', '=', 'read', 'read', 'b+='])
+      plan.append((op, {'+=': rng.randint(1, 9), '-=': rng.randint(1, 9), '*=': 2, '=': rng.randint(10, 99), 'read': None, 'b+=': rng.randint(1, 9)}[op]))
+    plans.append(plan)
+  pol = dict(policy='random', p_switch=rng.choice([0.03, 0.1, 0.3])) if rng.random() < 0.6 else dict(policy='pct', pct_depth=rng.choice([2, 3, 4]), pct_len=600)
+  s = ds.Sched(seed=rng.randrange(1 << 30), max_steps=300000, **pol)
+  ds.install(s, op_mods=[TSA, wl_c27])
+  wit = {'concurrent': True, 'plans': plans, 'policy': pol}
+  try:
+    class K(metaclass=TSA.MetaThreadSafeAttributes):
+      _attributes = ['a', 'b']
+    o = K()
+    if not hasattr(type(o).__dict__['a']._lock, 'owner'):
+      ctx.count('concurrent_lock_not_observable')     # the attribute no longer uses the (substituted) RLock: nothing to observe here
+      return
+    helds = [[] for _ in plans]
+    verdict = None
+    try:
+      ths = [ds.SThread(target=conc_worker, args=(o, pl, [], helds[i])) for i, pl in enumerate(plans)]
+      for t in ths:
+        t.start()
+      for t in ths:
+        t.join()
+      s.quiesce()
+    except ds.Verdict as v:
+      verdict = v.kind
+    ctx.count('concurrent_runs')
+    ctx.distinct(('conc',) + s.signature())
+    if any(isinstance(loc, tuple) and loc[0] in ('inc', 'dec', 'mul', 'inc_b') for (_, _, loc) in s.trail):
+      ctx.count('concurrent_switch_between_get_and_set')
+    wit['trail'] = s.trail[-40:]
+    for t, held in enumerate(helds):
+      for (k, op, name, owned, count) in held:
+        ctx.count('concurrent_statements_checked')
+        if owned:
+          ctx.violation('C28/lock-held-after/%s/concurrent' % CONC_LABEL[op], 'thread %d finished its statement %d (%s %r) and still owns the lock of attribute %s (re-entrant count %d) while other threads were using the attribute: no other thread can use it any more%s' % (
+            t, k, op, plans[t][k][1], name, count, ' (the run ended in %s)' % verdict if verdict else ''), wit)
+          return
+    if verdict:
+      ctx.count('other_property_disagreements')       # deadlock / error without a finished statement owning a lock: C27's business
+  finally:
+    z = ds.uninstall()
+    if z:
+      ctx.count('zombie_threads', z)
+
+
 def run_case(ctx, n):
+  if n % 4 == 3:
+    for sub in range(3):
+      concurrent_case(ctx, n * 3 + sub)
+    return
   rng = ctx.rng('case', n)
   stmts = [gen_statement(rng) for _ in range(rng.randint(15, 30))]
   src = ['from miros.thread_safe_attributes import MetaThreadSafeAttributes', '',
